@@ -1039,7 +1039,8 @@ def gen_e2e09_fit(rng, tier):
             "d": rng.choice([1, 2, 3]), "n": rng.choice([1, 2, 3, 5, 8] + ([12] if tier == "thorough" else [])),
             "zero_mean": rng.random() < 0.3,
             # Box-Cox target transform incl. the lambda = 0 (log) corner and values next to it
-            "boxcox": rng.choice([None, None, None, "0", "0", "0.5", "-0.3", "5e-8", "random"])}
+            "boxcox": rng.choice([None, None, None, "0", "0", "0.5", "-0.3", "5e-8", "random"]),
+            "verbose": rng.random() < 0.25}
 
 
 def run_e2e09_fit(spec):
@@ -1066,7 +1067,8 @@ def run_e2e09_fit(spec):
         tt.set_boxcox_lambda(float(bc))
         _, pd0 = create_lbfgs_arguments(lik, [data])
         vec = np.asarray(ParamVecDictConverter(pd0).to_vec(), dtype=float)
-    obj, pd = create_lbfgs_arguments(lik, [data])
+    obj, pd = create_lbfgs_arguments(lik, [data], verbose=bool(spec.get("verbose")))  # (logging is disabled in this module)
+    hist["fit_verbose:" + str(bool(spec.get("verbose")))] = 1
     conv = ParamVecDictConverter(pd)
     def scalar(z):
         return float(np.asarray(z, dtype=float).reshape(-1)[0])
@@ -1185,6 +1187,43 @@ def run_e2e09_acq(spec):
                              f"{spec['acq']}: d acq / d x[{i}] = {grad[i]:.10g} from compute_acq_with_gradient, {r:.10g} by Richardson "
                              f"central differences (error estimate {err:.2e}, nf={spec['nf']}, pending={spec['pending']})",
                              {"spec": spec, "x": x.tolist()}))
+    # the same acquisition-function object evaluated on an overriding predictor (different data, different incumbent)
+    # after it has been used on its own one
+    if spec.get("override", True):
+        Xb = [tuple(rng.random() for _ in range(d)) for _ in range(n + 1)]
+        Yb = [dictionarize_objective(-1.5 + math.cos(2 * x[0]) + 0.1 * rng.gauss(0, 1)) for x in Xb]
+        state_b = create_tuning_job_state(hp_ranges=hp, cand_tuples=list(Xb), metrics=Yb, pending_tuples=pend or None)
+        np_state = np.random.get_state()
+        np.random.seed((spec["seed"] + 1) % (2 ** 31))
+        try:
+            pred_b = est.fit_from_state(state_b, update_params=False)
+        finally:
+            np.random.set_state(np_state)
+        fresh = AF.EIAcquisitionFunction(pred_b) if spec["acq"] == "ei" else AF.LCBAcquisitionFunction(pred_b, kappa=acq.kappa)
+        for _ in range(3):
+            x = np.array([rng.uniform(0.05, 0.95) for _ in range(d)])
+            fval, grad = acq.compute_acq_with_gradient(x.copy(), predictor=pred_b)
+            alone = float(np.asarray(acq.compute_acq(x.copy(), predictor=pred_b)).reshape(-1)[0])
+            ref = float(np.asarray(fresh.compute_acq(x.copy())).reshape(-1)[0])
+            hist["acq_override_points"] = hist.get("acq_override_points", 0) + 1
+            if not close([fval], [alone]) or not close([alone], [ref]):
+                mon.append(F("c09:value-with-gradient-differs",
+                             f"{spec['acq']} on an overriding predictor: compute_acq_with_gradient value {fval}, compute_acq {alone}, "
+                             f"a fresh acquisition function on that predictor {ref} at {x.tolist()}", {"spec": spec}))
+                break
+
+            def fb(v):
+                return float(np.asarray(acq.compute_acq(v.copy(), predictor=pred_b)).reshape(-1)[0])
+            grad = np.asarray(grad, dtype=float).reshape(-1)
+            if abs(alone) < 1e-8:
+                continue  # far tail of EI: the differences are below the resolution of the quotient
+            for i in range(d):
+                r, err = richardson(fb, x, i, 1e-4)
+                tol = fd_tol(grad[i], r, err, abs(alone))
+                if not abs(grad[i] - r) <= tol:
+                    mon.append(F("c09:acq-gradient-not-derivative",
+                                 f"{spec['acq']} on an overriding predictor: d acq / d x[{i}] = {grad[i]:.10g}, {r:.10g} by Richardson "
+                                 f"central differences (error estimate {err:.2e})", {"spec": spec, "x": x.tolist()}))
     hist["acq_points_checked"] = npts
     return {"lines": [], "monitor": mon, "meta": {"hist": hist, "nontrivial": npts > 0, "dev": {"c09:acq-gradient": worst}}}
 
